@@ -534,7 +534,9 @@ impl Attribute for XmlAttribute {
                         v.as_unexpanded().unwrap().borrow().name(),
                         self.context(),
                     )?;
-                    normalized.push_str(v.as_str());
+                    // the replacement text is normalized as a whole: a tab, CR or LF given by a
+                    // character reference inside the entity becomes a space as well
+                    normalized.push_str(normalize_ws(v.as_str()).as_str());
                 }
                 XmlAttributeValue::Text(v) => {
                     normalized.push_str(
